@@ -1,12 +1,19 @@
 (* Uniform case interpreter for the C06 model.
-   a0 = [engine; tower_cid; family]  (family 0 = BLS12, 1 = BN; others: law ops only)
+   a0 = [engine; tower_cid; family]  (family 0 = BLS12, 1 = BN, 2 = MNT4, 3 = MNT6, 4 = BW6)
    model ops: a1 = Fp12 tower parameters (layout of C02 kind 12), a2 = family constants
    ([twist D?; X negative?; COEFF_B c0 c1] ++ BN: [TWIST_MUL_BY_Q_X c0 c1; _Y c0 c1]),
    a3 = X limbs, a4 = ATE_LOOP_COUNT digits (BN), a5 = [mode] (input form: ignored, see
    prepared_equals_unprepared), a6.. = operands.
+   MNT4 / MNT6: a1 = tower parameters (C02 kind 4 / kind 7 layout), a2 = [ATE_IS_LOOP_COUNT_NEG;
+   W0_IS_NEG] ++ TWIST ++ TWIST_COEFF_A, a3 = LAST_CHUNK_1 limbs ++ ABS_OF_W0 limbs (halves),
+   a4 = ATE_LOOP_COUNT (as stored), a5 = [mode], a6.. = operands.
+   BW6: a1 = tower parameters (C02 kind 7 layout), a2 = [twist D?; X negative?; ATE_LOOP_COUNT_1
+   negative?; ATE_LOOP_COUNT_2 negative?; T_MOD_R_IS_ZERO; H_T; H_Y; G2 COEFF_B],
+   a3 = [n] ++ X (n limbs) ++ X_MINUS_1_DIV_3 (n limbs) ++ ATE_LOOP_COUNT_1 limbs,
+   a4 = ATE_LOOP_COUNT_2, a5 = [mode], a6.. = operands.
    First result list is the status: [0] ok, [2] panic, [9] unsupported. *)
 From V Require Import Base.Word Base.Field C15.BigIntModel C02.Quad C02.Cubic C02.Towers C02.Inst.
-From V Require Import C06.Miller C06.FinalExp C06.Tower12 C06.Laws.
+From V Require Import C06.Miller C06.FinalExp C06.Tower12 C06.Mnt C06.Bw6 C06.Laws.
 
 Definition ok (r : list (list Z)) : list (list Z) := [0] :: r.
 Definition panic : list (list Z) := [[2]].
@@ -90,9 +97,167 @@ Definition run_tower12 (op : Z) (a : list (list Z)) : list (list Z) :=
   | _ => unsupported
   end.
 
+(* ---------------- MNT4 / MNT6 ---------------- *)
+Section RunMnt.
+  Context {E : Type}.
+  Variable p : Z.
+  Variable LE : level Z E.
+  Variable LT : level Z (E * E).
+  Variable embed : Z -> E.
+  Variable mnt6 : bool.
+  Variable d : nat.                       (* degree of the twist field *)
+  Definition run_mnt (op : Z) (a : list (list Z)) : list (list Z) :=
+    let Fp := ZpOps p in
+    let Fe := lF LE in
+    let Fc := arg 2 a in
+    let ate_neg := nth 0 Fc 0 =? 1 in
+    let w0_neg := nth 1 Fc 0 =? 1 in
+    let twist := fof Fe (drop 2 Fc) in
+    let twist_a := fof Fe (drop (2 + d) Fc) in
+    let W := arg 3 a in
+    let h := Nat.div2 (length W) in
+    let w1 := take h W in
+    let w0 := drop h W in
+    let ate := arg 4 a in
+    let coE := fcoords Fe in
+    let coT := fcoords (lF LT) in
+    let g1_of (l : list Z) : option (Z * Z) :=
+      if nth 0 l 0 =? 1 then None else Some (fp_of p (nth 1 l 0), fp_of p (nth 2 l 0)) in
+    let g2_of (l : list Z) : option (E * E) :=
+      if nth 0 l 0 =? 1 then None else Some (fof Fe (drop 1 l), fof Fe (drop (1 + d) l)) in
+    let pair (l : list Z) := (g1_of l, g2_of (drop 3 l)) in
+    let miller pairs := mnt_multi_miller Fp LE LT embed mnt6 twist twist_a ate ate_neg pairs in
+    let fexp f := mnt_final_exponentiation LE LT mnt6 w1 w0 w0_neg f in
+    match op with
+    | 1 =>
+        match miller (map pair (skipn 6 a)) with
+        | None => panic
+        | Some ml =>
+            match fexp ml with
+            | Some (Some r) => ok [coT ml; coT r; coT r]
+            | _ => panic
+            end
+        end
+    | 2 => match miller (map pair (skipn 6 a)) with
+           | None => panic
+           | Some ml => ok [coT ml]
+           end
+    | 3 => match fexp (fof (lF LT) (arg 6 a)) with
+           | None => panic
+           | Some None => ok [[0]]
+           | Some (Some r) => ok [[1]; coT r]
+           end
+    | 4 => match mnt_g2_prepare LE mnt6 twist twist_a ate ate_neg (g2_of (arg 6 a)) with
+           | None => panic
+           | Some (x, y, xot, yot, dcs, acs) =>
+               ok [coE x ++ coE y ++ coE xot ++ coE yot;
+                   [Z.of_nat (length dcs); Z.of_nat (length acs)];
+                   flat_map (fun c : E * E * E * E =>
+                               let '(ch, c4c, cj, cl) := c in coE ch ++ coE c4c ++ coE cj ++ coE cl) dcs;
+                   flat_map (fun c : E * E => coE (fst c) ++ coE (snd c)) acs]
+           end
+    | 5 => let '(x, y, xt, yt) := mnt_g1_prepare Fp LE twist (g1_of (arg 6 a)) in
+           ok [[x; y] ++ coE xt ++ coE yt]
+    | _ => unsupported
+    end.
+End RunMnt.
+
+Definition tr (l : list Z) : Z * Z * Z := (nth 0 l 0, nth 1 l 0, nth 2 l 0).
+
+Definition run_mnt4 (op : Z) (a : list (list Z)) : list (list Z) :=
+  let cid := nth 1 (arg 0 a) 0 in
+  let P := arg 1 a in
+  let p := nth 0 P 0 in
+  let Fp := ZpOps p in
+  (* [p; nr2; fp2c1 x2; nr4 x2; c1 x4] *)
+  let nr2 := nth 1 P 0 in
+  let tab2 := take 2 (drop 2 P) in
+  let nr4 := pr (drop 4 P) in
+  let tab4 := take 4 (drop 6 P) in
+  run_mnt p (L2 cid Fp nr2 tab2) (L4 cid Fp nr2 tab2 nr4 tab4) (fun x => (x, f0 Fp)) false 2 op a.
+
+Definition run_mnt6 (op : Z) (a : list (list Z)) : list (list Z) :=
+  let cid := nth 1 (arg 0 a) 0 in
+  let P := arg 1 a in
+  let p := nth 0 P 0 in
+  let Fp := ZpOps p in
+  (* [p; nr3; fp3c1 x3; fp3c2 x3; nr6 x3; c1 x6] *)
+  let nr3 := nth 1 P 0 in
+  let t1 := take 3 (drop 2 P) in
+  let t2 := take 3 (drop 5 P) in
+  let nr6b := tr (drop 8 P) in
+  let tab6b := take 6 (drop 11 P) in
+  run_mnt p (L3 cid Fp nr3 t1 t2) (L6b cid Fp nr3 t1 t2 nr6b tab6b) (fun x => (x, f0 Fp, f0 Fp)) true 3 op a.
+
+(* ---------------- BW6 ---------------- *)
+Definition run_bw6 (op : Z) (a : list (list Z)) : list (list Z) :=
+  let cid := nth 1 (arg 0 a) 0 in
+  let P := arg 1 a in
+  let p := nth 0 P 0 in
+  let Fp := ZpOps p in
+  let nr3 := nth 1 P 0 in
+  let t1 := take 3 (drop 2 P) in
+  let t2 := take 3 (drop 5 P) in
+  let nr6b := tr (drop 8 P) in
+  let tab6b := take 6 (drop 11 P) in
+  let Fc := arg 2 a in
+  let twD := nth 0 Fc 0 =? 1 in
+  let xneg := nth 1 Fc 0 =? 1 in
+  let ate1_neg := nth 2 Fc 0 =? 1 in
+  let ate2_neg := nth 3 Fc 0 =? 1 in
+  let tmodr := nth 4 Fc 0 =? 1 in
+  let h_t := nth 5 Fc 0 in
+  let h_y := nth 6 Fc 0 in
+  let coeff_b := fp_of p (nth 7 Fc 0) in
+  let XS := arg 3 a in
+  let n := Z.to_nat (nth 0 XS 0) in
+  let X := take n (drop 1 XS) in
+  let xm1d3 := take n (drop (1 + n) XS) in
+  let ate1 := drop (1 + n + n) XS in
+  let ate2 := arg 4 a in
+  let F6 := lF (BLT cid Fp nr3 t1 t2 nr6b tab6b) in
+  let co := fcoords F6 in
+  let pt (inf x y : Z) : option (Z * Z) := if inf =? 1 then None else Some (fp_of p x, fp_of p y) in
+  let pair (l : list Z) := (pt (nth 0 l 0) (nth 1 l 0) (nth 2 l 0), pt (nth 3 l 0) (nth 4 l 0) (nth 5 l 0)) in
+  let miller pairs :=
+    bw6_multi_miller cid Fp nr3 t1 t2 nr6b tab6b twD ate1 ate1_neg ate2 ate2_neg tmodr coeff_b pairs in
+  let fexp f := bw6_final_exponentiation cid Fp nr3 t1 t2 nr6b tab6b tmodr X xneg xm1d3 h_t h_y f in
+  let co3 (c : Z * Z * Z) : list Z := let '(c0, c1, c2) := c in [c0; c1; c2] in
+  match op with
+  | 1 =>
+      match miller (map pair (skipn 6 a)) with
+      | None => panic
+      | Some ml =>
+          match fexp ml with
+          | Some r => ok [co ml; co r; co r]
+          | None => panic
+          end
+      end
+  | 2 => match miller (map pair (skipn 6 a)) with
+         | None => panic
+         | Some ml => ok [co ml]
+         end
+  | 3 => match fexp (fof F6 (arg 6 a)) with
+         | None => panic
+         | Some r => ok [[1]; co r]
+         end
+  | 4 => let l := arg 6 a in
+         match bw6_prepare Fp coeff_b twD ate1 ate1_neg ate2 (pt (nth 0 l 0) (nth 1 l 0) (nth 2 l 0)) with
+         | None => panic
+         | Some (cs1, cs2, inf) =>
+             ok [[bz inf]; [Z.of_nat (length cs1); Z.of_nat (length cs2)]; flat_map co3 cs1; flat_map co3 cs2]
+         end
+  | _ => unsupported
+  end.
+
 Definition run_C06 (op : Z) (a : list (list Z)) : list (list Z) :=
   if op <? 10 then
-    (if nth 2 (arg 0 a) 0 <? 2 then run_tower12 op a else unsupported)
+    (let fam := nth 2 (arg 0 a) 0 in
+     if fam <? 2 then run_tower12 op a
+     else if fam =? 2 then run_mnt4 op a
+     else if fam =? 3 then run_mnt6 op a
+     else if fam =? 4 then run_bw6 op a
+     else unsupported)
   else
     match law_model op with
     | Some r => ok (map (fun b : bool => [bz b]) r)
